@@ -21,6 +21,7 @@ pub fn opts() -> GenOpts {
     o.types = vec![Ty::Str, Ty::U32, Ty::Os];
     o.cmd_or_words = true;
     o.adjacent_cmds = true;
+    o.cmd_fallback = true;
     o
 }
 
